@@ -53,7 +53,7 @@ TRUSTED = ['hand-written model coq/Model/Tsv.v tied to biom/table.py (delimited_
            'extraction (ExtrOcamlBasic only) + ocaml/driver_tail.ml, cross-checked against vm_compute on a sample']
 from . import regen_tsv as _regen_tsv
 # py2v_tsv: regenerate coq/Gen/TsvGen.v (Table.delimited_self) and coq/Gen/TsvReadGen.v (header search of _extract_data_from_tsv) from the source first
-regenerate = _regen_tsv.hook(TRUSTED, ['tsv', 'tsvread'], 'coq/Model/Tsv.v', 'coq/Proofs/GenBridgeTsvProofs.v, coq/Proofs/GenBridgeTsvReadProofs.v')
+regenerate = _regen_tsv.hook(TRUSTED, ['tsv', 'tsvread', 'tsvread2'], 'coq/Model/Tsv.v', 'coq/Proofs/GenBridgeTsvProofs.v, coq/Proofs/GenBridgeTsvReadProofs.v, coq/Proofs/GenBridgeTsvRead2Proofs.v')
 ASSUMPTIONS = ['-0.0 is not a table value (scipy drops it at construction)',
                'a carriage return counts as a newline (ids with CR are outside the domain)',
                'text reaches the reader through Python text-mode iteration (universal newlines) or str.split("\\n")']
